@@ -37,15 +37,25 @@ VFc(r) ==
     [] r.back.bbox # fc.bbox -> Viol("geojson|featurecollection|bbox")
     [] r.back.features # [i \in DOMAIN fc.features |-> CanonF(fc.features[i])] -> Viol("geojson|featurecollection|features")
     [] OTHER -> OK
+\* For an arbitrary JSON document the property demands totality and a well-formed result - whether a malformed
+\* document is accepted or rejected, and how odd members (a null ordinate, a numeric id) are read, is left to the
+\* implementation.  WHAT must come back is fixed only for standard documents: those the specification's decoder
+\* accepts and whose value re-encodes to exactly the same document (the image of the encoder on the round-trip domain).
+StdFeat(f) == "nil" \notin DOMAIN f /\ (f.geom = NOGEOM \/ RoundTrips(f.geom))
+Standard(kind, doc, d) ==
+  /\ d.ok
+  /\ CASE kind = "geom" -> d.v # NOGEOM /\ RoundTrips(d.v) /\ EncGeom(d.v) = doc
+        [] kind = "feature" -> StdFeat(d.v) /\ EncFeature(d.v) = doc
+        [] OTHER -> (\A i \in DOMAIN d.v.features : StdFeat(d.v.features[i])) /\ EncFC(d.v) = doc
 VDec(r) ==
   LET kind == r.case.kind
-      d == CASE kind = "geom" -> DecGeom(r.case.doc) [] kind = "feature" -> DecFeature(r.case.doc) [] OTHER -> DecFC(r.case.doc) IN
+      d == CASE kind = "geom" -> DecGeom(r.case.doc) [] kind = "feature" -> DecFeature(r.case.doc) [] OTHER -> DecFC(r.case.doc)
+      std == Standard(kind, r.case.doc, d) IN
   CASE r.pan # "" -> Viol("geojson|decode|" \o kind \o "|panic")
-    [] r.ok # d.ok -> Viol("geojson|decode|" \o kind \o (IF r.ok THEN "|accepts-invalid" ELSE "|rejects-valid"))
-    [] ~r.ok -> OK
-    [] ~WFAll(r.wf) -> Viol("geojson|decode|" \o kind \o "|ill-formed")
-    [] kind = "geom" /\ r.g # d.v -> Viol("geojson|decode|geom|value-differs")
-    [] kind # "geom" /\ r.f # d.v -> Viol("geojson|decode|" \o kind \o "|value-differs")
+    [] r.ok /\ ~WFAll(r.wf) -> Viol("geojson|decode|" \o kind \o "|ill-formed")
+    [] std /\ ~r.ok -> Viol("geojson|decode|" \o kind \o "|rejects-standard-document")
+    [] std /\ kind = "geom" /\ r.g # d.v -> Viol("geojson|decode|geom|value-differs")
+    [] std /\ kind # "geom" /\ r.f # d.v -> Viol("geojson|decode|" \o kind \o "|value-differs")
     [] OTHER -> OK
 Verdict(r) ==
   IF r.ev # "ok" THEN Viol("geojson|" \o r.ev)
